@@ -1,1 +1,326 @@
-/-! Property theorems for C11 (only property-level statements and non-vacuity examples live here). -/
+import SpoxModel.Lemmas.Emit
+import SpoxModel.Model.Conform
+import SpoxModel.Lemmas.Conform
+import SpoxModel.Generated.Conforms_v17
+import SpoxModel.Generated.Conforms_v18
+import SpoxModel.Generated.Conforms_v19
+import SpoxModel.Generated.Conforms_v20
+import SpoxModel.Generated.Conforms_v21
+import SpoxModel.Generated.Conforms_ml_v3
+import SpoxModel.Generated.Conforms_ml_v4
+import SpoxModel.Generated.Conforms_ml_v5
+/-!
+# C11 — every shipped operator constructor conforms to its ONNX schema
+
+Property theorems only.
+
+* finite part — `table_conforms`: every operator/module pair of the tables *extracted from /repo on
+  this run* (source text of the 8 opset modules; `onnx.defs`) satisfies `Conform.entryOK`
+  (one kernel-evaluated obligation per pair, `Generated/Conforms_*.lean`), except the pairs listed as
+  known deviations, for which `table_conforms_except` holds;
+* unbounded part — `emit_slots`, `slot_position`, `emit_attrs`, `conforming_call`: for *any*
+  signature and *any* subset of supplied optional inputs / attributes the emitted node has each
+  argument in its schema slot and each attribute under its schema name with the value given.
+-/
+namespace C11
+open Emit Conform
+
+variable {α β : Type}
+
+/-! ## slots (unbounded) -/
+
+/-- **emit_slots.** For every field list (any mix of single / optional / variadic), every assignment
+    of arguments and every minimum `minN`:
+    1. the emitted list is a *prefix* of the full positional list — so position `k` still holds
+       argument `k`, and an omitted optional that is not dropped stays as an empty name (`none`);
+    2. everything that was dropped is an omitted optional;
+    3. nothing is dropped below `minN` (a list no longer than `minN` is emitted whole);
+    4. *all* omitted trailing optionals above `minN` are dropped (if more than `minN` names are
+       emitted, the last one is a present value). -/
+theorem emit_slots (minN : Nat) (args : List (Arg α)) :
+    emitSlots minN args <+: flatten args ∧
+    (∃ k, flatten args = emitSlots minN args ++ List.replicate k none) ∧
+    min minN (flatten args).length ≤ (emitSlots minN args).length ∧
+    (minN < (emitSlots minN args).length →
+      ∃ v, (emitSlots minN args).getLast? = some (some v)) :=
+  ⟨trim_prefix _ _, trim_dropped _ _, trim_min' _ _, trim_last _ _⟩
+
+/-- **emit_slots_exact.** The four facts of `emit_slots` determine the emitted list: it is *the*
+    prefix of the positional list that drops only omitted optionals, keeps at least
+    `min(min_input, length)` names and, above `min_input`, does not end in an empty name. So
+    "exactly the trailing omitted optionals above `min_input` are dropped" is not an approximation. -/
+theorem emit_slots_exact (minN : Nat) (args : List (Arg α)) (ys : List (Option α))
+    (h1 : ys <+: flatten args) (h2 : ∃ k, flatten args = ys ++ List.replicate k none)
+    (h3 : min minN (flatten args).length ≤ ys.length)
+    (h4 : minN < ys.length → ∃ v, ys.getLast? = some (some v)) :
+    ys = emitSlots minN args :=
+  trim_unique minN _ ys h1 h2 h3 h4
+
+/-- Positional form of (1): whatever is emitted at index `k` is the `k`-th positional argument. -/
+theorem emit_slots_index (minN : Nat) (args : List (Arg α)) (k : Nat) (x : Option α)
+    (h : (emitSlots minN args)[k]? = some x) : (flatten args)[k]? = some x := by
+  obtain ⟨t, ht⟩ := (emit_slots minN args).1
+  rw [← ht, List.getElem?_append_left]
+  · exact h
+  · exact (List.getElem?_eq_some_iff.mp h).1
+
+/-- A supplied argument is never dropped nor moved. -/
+theorem emit_slots_present (minN : Nat) (args : List (Arg α)) (k : Nat) (v : α)
+    (h : (flatten args)[k]? = some (some v)) : (emitSlots minN args)[k]? = some (some v) :=
+  trim_keeps_present minN _ k v h
+
+/-- **slot_position.** A non-variadic field preceded by `k` non-variadic fields sits at positional
+    index `k` (ONNX allows a variadic field only in last place; then it starts at index `k` too). -/
+theorem slot_position (pre post : List (Arg α)) (a : Arg α) (h : noVariadic pre = true) :
+    match a with
+    | .single v => (flatten (pre ++ a :: post))[pre.length]? = some (some v)
+    | .opt v => (flatten (pre ++ a :: post))[pre.length]? = some v
+    | .variadic vs => ∀ i, i < vs.length →
+        (flatten (pre ++ a :: post))[pre.length + i]? = (vs[i]?).map some := by
+  have hl := flatten_length_noVariadic pre h
+  cases a with
+  | single v => simp [flatten_append, flatten, ← hl]
+  | opt v => simp [flatten_append, flatten, ← hl]
+  | variadic vs =>
+    intro i hi
+    rw [flatten_append, ← hl, List.getElem?_append_right (by omega)]
+    simp [flatten, List.getElem?_append_left, hi]
+
+/-- Plain `Node` subclasses (`min_input = len(inputs)`): nothing is trimmed (used by C18). -/
+theorem emit_slots_custom (args : List (Arg α)) : emitSlotsCustom args = flatten args :=
+  trim_len _
+
+/-! ## attributes (unbounded) -/
+
+/-- **emit_attrs.** Exactly the attributes that are set (not `None`) are emitted, each under the
+    name its `Attr` object carries and with its value, in field order. -/
+theorem emit_attrs (l : List (Option (String × β))) :
+    emitAttrs l = l.filterMap id ∧ (∀ a, a ∈ emitAttrs l ↔ some a ∈ l) := by
+  refine ⟨emitAttrs_eq_filterMap l, fun a => ?_⟩
+  rw [emitAttrs_eq_filterMap]; simp [List.mem_filterMap]
+
+/-! ## the finite part: the tables generated from /repo -/
+
+open Generated.Conforms in
+/-- all operator/module pairs without a listed deviation -/
+def allPairs : List Entry :=
+  v17.table ++ v18.table ++ v19.table ++ v20.table ++ v21.table ++
+  ml_v3.table ++ ml_v4.table ++ ml_v5.table
+
+open Generated.Conforms in
+/-- pairs with a listed deviation (known findings: `Constant.sparse_value`; `GroupNormalization-18`
+    deprecated), each with what is excepted -/
+def deviatingPairs : List (List String × Entry) :=
+  v17.deviating ++ v18.deviating ++ v19.deviating ++ v20.deviating ++ v21.deviating ++
+  ml_v3.deviating ++ ml_v4.deviating ++ ml_v5.deviating
+
+open Generated.Conforms in
+/-- **table_conforms.** Every shipped operator/module pair (as extracted from the source on this
+    run) conforms to the ONNX schema in force at its module's version. -/
+theorem table_conforms : ∀ e ∈ allPairs, entryOK e = true := by
+  intro e he
+  simp only [allPairs, List.mem_append] at he
+  rcases he with ((((((h | h) | h) | h) | h) | h) | h) | h
+  · exact v17.table_conforms e h
+  · exact v18.table_conforms e h
+  · exact v19.table_conforms e h
+  · exact v20.table_conforms e h
+  · exact v21.table_conforms e h
+  · exact ml_v3.table_conforms e h
+  · exact ml_v4.table_conforms e h
+  · exact ml_v5.table_conforms e h
+
+/-- What `entryOK` says, as propositions (so that the Boolean predicate cannot hide anything). -/
+theorem entryOK_sound (e : Entry) (h : entryOK e = true) :
+    e.2.1.cls.pyName = e.1 ∧
+    e.2.1.cls.opName = e.2.2.name ∧ e.2.1.cls.domain = e.2.2.domain ∧
+    e.2.1.cls.version = e.2.2.since ∧
+    e.2.1.cls.inputs = e.2.2.inputs ∧ e.2.1.cls.outputs = e.2.2.outputs ∧
+    inputsOK e.2.2.inputs e.2.1.inputWires (positional e.2.1.params) = true ∧
+    attrsOK e.2.1.params e.2.1.cls.attrs e.2.1.attrWires e.2.2.attrs = true := by
+  simp only [entryOK, conformsTo, Bool.and_eq_true, beq_iff_eq, and_assoc] at h
+  obtain ⟨h0, h1, h2, h3, _, _, h5, h6, h7, h8, _⟩ := h
+  exact ⟨h0, h1, h2, h3, h5, h6, h7, h8⟩
+
+/-! ## conformance ⇒ emission (unbounded in the call) -/
+
+/-- **conforming_call.** For *any* constructor `c` and schema `s` with `conformsTo c s` (in
+    particular every pair of `table_conforms`), *any* assignment of arguments to the input
+    parameters and *any* subset of supplied attribute parameters (with any values), the node built
+    by the constructor call and emitted by `Node.to_onnx`
+    * carries the schema's operator name and domain and requires `(domain, since_version)`;
+    * has as inputs the schema's formal inputs in schema order, each bound to the argument of the
+      same name, trimmed as `emit_slots` describes with `min_input` of the schema;
+    * has as attributes, for each schema attribute in turn: the supplied value under the schema
+      name; else the schema default under the schema name if there is one; else nothing. -/
+theorem conforming_call (c : Ctor) (s : Schema) (h : conformsTo c s = true)
+    (args : String → Arg α) (outs : List (Arg α)) (supplied : String → Option Val) :
+    let n : NodeIn α Val :=
+      { opType := c.cls.opName, domain := c.cls.domain, version := c.cls.version,
+        mins := some (s.minInput, s.minOutput), inputs := callInputs c args, outputs := outs,
+        attrs := callAttrs c supplied }
+    (emitNode n).opType = s.name ∧ (emitNode n).domain = s.domain ∧
+    opsetReq n = (s.domain, s.since) ∧
+    (emitNode n).inputs = emitSlots s.minInput (s.inputs.map fun f => args f.1) ∧
+    (emitNode n).attrs =
+      (List.zipWith (expectedAttr supplied) s.attrs c.attrWires).filterMap id ∧
+    c.attrWires.length = s.attrs.length := by
+  simp only [conformsTo, Bool.and_eq_true, beq_iff_eq, and_assoc] at h
+  obtain ⟨h1, h2, h3, _, _, h5, _, h7, h8, _⟩ := h
+  have hin := callInputs_of_inputsOK c s.inputs h5 _ h7 args
+  have hat := callAttrs_of_attrsOK c.params supplied _ _ _ h8
+  refine ⟨h1, h2, ?_, ?_, ?_, attrsOK_length _ _ _ _ h8⟩
+  · simp [opsetReq, h2, h3]
+  · simp [emitNode, hin]
+  · simp only [emitNode, emitAttrs_eq_filterMap, callAttrs_eq, hat]
+
+/-- … in particular for every shipped operator/module pair of this run's tables. -/
+theorem shipped_call (e : Entry) (he : e ∈ allPairs)
+    (args : String → Arg α) (supplied : String → Option Val) :
+    emitSlots e.2.2.minInput (callInputs e.2.1 args) =
+      emitSlots e.2.2.minInput (e.2.2.inputs.map fun f => args f.1) ∧
+    emitAttrs (callAttrs e.2.1 supplied) =
+      (List.zipWith (expectedAttr supplied) e.2.2.attrs e.2.1.attrWires).filterMap id := by
+  have h := table_conforms e he
+  simp only [entryOK, Bool.and_eq_true] at h
+  have hc := conforming_call (α := α) e.2.1 e.2.2 h.2 args [] supplied
+  simp only [emitNode] at hc
+  exact ⟨hc.2.2.2.1, hc.2.2.2.2.1⟩
+
+open Generated.Conforms in
+/-- the deviating pairs conform in everything but their listed deviation -/
+theorem table_conforms_except : ∀ d ∈ deviatingPairs, entryOKExcept d.1 d.2 = true := by
+  intro e he
+  simp only [deviatingPairs, List.mem_append] at he
+  rcases he with ((((((h | h) | h) | h) | h) | h) | h) | h
+  · exact v17.deviating_conforms e h
+  · exact v18.deviating_conforms e h
+  · exact v19.deviating_conforms e h
+  · exact v20.deviating_conforms e h
+  · exact v21.deviating_conforms e h
+  · exact ml_v3.deviating_conforms e h
+  · exact ml_v4.deviating_conforms e h
+  · exact ml_v5.deviating_conforms e h
+
+/-! ## known finding: `Constant` has no `sparse_value` (v17–v21)
+
+The full statement is *false* for `Constant`; the witness below is the pinned extraction of
+`v17.constant` / `ai.onnx::Constant-13` (kept verbatim here so that the theorem documents the
+finding independently of the generated files). -/
+
+def pinnedConstantCls : ClassSig :=
+  { pyName := "v17._Constant", base := "StandardNode", opName := "Constant", domain := "", version := 13,
+    inputs := [],
+    outputs := [("output", .single)],
+    attrs := [⟨"value", .tensor, true⟩, ⟨"value_float", .float, true⟩, ⟨"value_floats", .floats, true⟩, ⟨"value_int", .int, true⟩, ⟨"value_ints", .ints, true⟩, ⟨"value_string", .string, true⟩, ⟨"value_strings", .strings, true⟩] }
+
+def pinnedConstant : Ctor :=
+  { pyName := "v17.constant", cls := pinnedConstantCls,
+    params := [⟨"value", true, .attr, some Val.none⟩, ⟨"value_float", true, .attr, some Val.none⟩, ⟨"value_floats", true, .attr, some Val.none⟩, ⟨"value_int", true, .attr, some Val.none⟩, ⟨"value_ints", true, .attr, some Val.none⟩, ⟨"value_string", true, .attr, some Val.none⟩, ⟨"value_strings", true, .attr, some Val.none⟩],
+    attrWires := [⟨"value", .tensor, true, "value", "value", false⟩, ⟨"value_float", .float, true, "value_float", "value_float", false⟩, ⟨"value_floats", .floats, true, "value_floats", "value_floats", false⟩, ⟨"value_int", .int, true, "value_int", "value_int", false⟩, ⟨"value_ints", .ints, true, "value_ints", "value_ints", false⟩, ⟨"value_string", .string, true, "value_string", "value_string", false⟩, ⟨"value_strings", .strings, true, "value_strings", "value_strings", false⟩],
+    inputWires := [],
+    outVar := .none, ret := .field "output" }
+
+def pinnedConstantSchema : Schema :=
+  { name := "Constant", domain := "", since := 13, deprecated := false, minInput := 0, minOutput := 1,
+    inputs := [],
+    outputs := [("output", .single)],
+    attrs := [⟨"sparse_value", .SPARSE_TENSOR, false, Val.none⟩, ⟨"value", .TENSOR, false, Val.none⟩, ⟨"value_float", .FLOAT, false, Val.none⟩, ⟨"value_floats", .FLOATS, false, Val.none⟩, ⟨"value_int", .INT, false, Val.none⟩, ⟨"value_ints", .INTS, false, Val.none⟩, ⟨"value_string", .STRING, false, Val.none⟩, ⟨"value_strings", .STRINGS, false, Val.none⟩] }
+
+/-- **constant_sparse_value_counterexample.** `Constant` does not conform: the schema attribute
+    `sparse_value` has no counterpart; dropping it from the schema restores conformance. -/
+theorem constant_sparse_value_counterexample :
+    conformsTo pinnedConstant pinnedConstantSchema = false ∧
+    (pinnedConstantSchema.attrs.any fun a =>
+      a.name == "sparse_value" && !pinnedConstant.cls.attrs.any (fun f => f.name == a.name)) = true ∧
+    conformsTo pinnedConstant (dropAttrs pinnedConstantSchema ["sparse_value"]) = true := by
+  decide +kernel
+
+/-! ## known finding: `GroupNormalization-18` is deprecated (modules v18–v20)
+
+onnx 1.22 marks the schema in force at versions 18–20 as deprecated: the checker refuses the node. -/
+
+def pinnedGroupNorm : Ctor :=
+  { pyName := "v18.group_normalization",
+    cls := { pyName := "v18._GroupNormalization", base := "StandardNode", opName := "GroupNormalization",
+             domain := "", version := 18,
+             inputs := [("X", .single), ("scale", .single), ("bias", .single)],
+             outputs := [("Y", .single)],
+             attrs := [⟨"epsilon", .float, false⟩, ⟨"num_groups", .int, false⟩] },
+    params := [⟨"X", false, .var, none⟩, ⟨"scale", false, .var, none⟩, ⟨"bias", false, .var, none⟩, ⟨"epsilon", true, .attr, some (Val.float 925353388)⟩, ⟨"num_groups", true, .attr, none⟩],
+    attrWires := [⟨"epsilon", .float, false, "epsilon", "epsilon", false⟩, ⟨"num_groups", .int, false, "num_groups", "num_groups", false⟩],
+    inputWires := [("X", "X"), ("scale", "scale"), ("bias", "bias")],
+    outVar := .none, ret := .field "Y" }
+
+def pinnedGroupNormSchema : Schema :=
+  { name := "GroupNormalization", domain := "", since := 18, deprecated := true, minInput := 3, minOutput := 1,
+    inputs := [("X", .single), ("scale", .single), ("bias", .single)],
+    outputs := [("Y", .single)],
+    attrs := [⟨"epsilon", .FLOAT, false, (Val.float 925353388)⟩, ⟨"num_groups", .INT, true, Val.none⟩] }
+
+/-- **group_normalization_deprecated_counterexample.** -/
+theorem group_normalization_deprecated_counterexample :
+    conformsTo pinnedGroupNorm pinnedGroupNormSchema = false ∧
+    conformsTo pinnedGroupNorm (undeprecate pinnedGroupNormSchema ["@deprecated"]) = true := by
+  decide +kernel
+
+/-! ## outputs: every declared output is always emitted
+
+`Node._init_output_vars` creates a Var for every declared output, so — unlike inputs — an optional
+output can never be omitted and nothing is ever trimmed from the output list. For almost all
+schemas that is harmless; `BatchNormalization` is the exception (known finding): its ONNX inference
+demands exactly one output when `training_mode = 0`. -/
+
+theorem initOutputs_present (outs : List (String × FieldKind)) (nvar : Nat) :
+    ∀ x ∈ flatten (initOutputs outs nvar), x ≠ none := by
+  induction outs with
+  | nil => simp [initOutputs, flatten]
+  | cons f rest ih =>
+    obtain ⟨n, k⟩ := f
+    have ih' : ∀ x ∈ flatten (initOutputs rest nvar), x ≠ none := ih
+    cases k <;> simp only [initOutputs, List.map_cons, flatten] <;> intro x hx
+    · rcases List.mem_cons.mp hx with h | h
+      · simp [h]
+      · exact ih' x h
+    · rcases List.mem_cons.mp hx with h | h
+      · simp [h]
+      · exact ih' x h
+    · rcases List.mem_append.mp hx with h | h
+      · obtain ⟨y, _, rfl⟩ := List.mem_map.mp h; simp
+      · exact ih' x h
+
+/-- **outputs_never_omitted.** Whatever `min_output` is, the emitted output list is the full list
+    of declared outputs (optional ones included, the variadic one expanded to `out_variadic`). -/
+theorem outputs_never_omitted (minN : Nat) (outs : List (String × FieldKind)) (nvar : Nat) :
+    emitSlots minN (initOutputs outs nvar) = flatten (initOutputs outs nvar) :=
+  trim_all_present _ _ (initOutputs_present outs nvar)
+
+/-- **batchnorm_outputs_counterexample.** `BatchNormalization-15` declares
+    `Y, running_mean?, running_var?` (min_output 1); the constructor emits three output names, while
+    ONNX's inference for `training_mode = 0` (the default) accepts exactly one. -/
+theorem batchnorm_outputs_counterexample :
+    (emitSlots 1 (initOutputs [("Y", .single), ("running_mean", .optional), ("running_var", .optional)] 0)).length = 3 := by
+  decide
+
+/-! ## non-vacuity -/
+
+example : allPairs.length > 900 := by decide +kernel
+example : deviatingPairs.length = 8 := by decide +kernel
+/-- `Clip(x, None, max)`: the inner omitted optional stays as an empty name -/
+example : emitSlots 1 [Arg.single "x", .opt none, .opt (some "hi")] = [some "x", none, some "hi"] := by
+  decide
+/-- `Clip(x, min, None)`: the trailing one is dropped -/
+example : emitSlots 1 [Arg.single "x", .opt (some "lo"), .opt none] = [some "x", some "lo"] := by
+  decide
+/-- never below `min_input` -/
+example : emitSlots 2 [Arg.opt (none : Option String), .opt none, .variadic []] = [none, none] := by
+  decide
+/-- the predicate does reject: a changed default (`ReduceSum.keepdims = 0`) -/
+example :
+    let c := Generated.Ctors.v17.f_reduce_sum
+    let c' : Ctor := { c with params := c.params.map fun p =>
+      if p.name == "keepdims" then { p with default := some (Val.int 0) } else p }
+    conformsTo c Generated.Schemas.v17.s_ReduceSum_13 = true ∧
+    conformsTo c' Generated.Schemas.v17.s_ReduceSum_13 = false := by decide +kernel
+
+end C11
